@@ -14,7 +14,7 @@ EXPECT_WRITE = {
     "size": ("str(list(self.size()))", "str(list(self.shape))", "str(tuple(self.size()))"),
     "stride": ("str(list(self.stride()))", "str(self.stride())", "str(tuple(self.stride()))"),
     "bits": ("str(self._bits)", "str(self.bits)"),
-    "packing": ("str(self._packing)",),
+    "packing": ("str(self._packing)", "self._packing.name", "str(self._packing.value)", "self._packing.value"),  # which of them the reader inverts is judged by the codec rule
     "reorder": ("str(self._reorder)",),
 }
 # values for which str() -> ast.literal_eval is the identity (ints, None, bools, lists/tuples of ints)
@@ -50,6 +50,48 @@ def flatten_classes(repo: Repo) -> List[ClassInfo]:
             if ci.own("__tensor_flatten__") is not None or any(b.name in hosts and b.name.startswith("_") for b in repo.mro(ci)[1:]):
                 out.append(ci)
     return sorted(out, key=lambda c: c.name)
+
+
+def inherited_readers(repo: Repo):
+    """Public tensor classes that change the representation (own __init__ or __new__) but take __tensor_unflatten__ from a PUBLIC base
+    of the package whose reader names the class it builds: the rebuilt object is the base, not the subclass.
+    -> list of (class, base, line of the subclass, text of the constructor call in the base reader)"""
+    out = []
+    for lst in repo.classes.values():
+        for ci in lst:
+            if ci.name.startswith("_") or (ci.own("__init__") is None and ci.own("__new__") is None):
+                continue
+            mro = repo.mro(ci)
+            if len(mro) < 2 or ci.own("__tensor_unflatten__") is not None:
+                continue
+            for b in mro[1:]:
+                f = b.own("__tensor_unflatten__")
+                if f is None:
+                    continue
+                if b.name.startswith("_"):
+                    break  # a private mixin: analysed as the class's own reader
+                built = [U(c.func) for c in ast.walk(f) if isinstance(c, ast.Call) and isinstance(c.func, ast.Name) and c.func.id in [x.name for x in mro]]
+                names = sorted(set(built))
+                if names and ci.name not in names:
+                    out.append((ci, b, ci.node.lineno, names))
+                break
+    return out
+
+
+def _enum_of_field(repo: Repo, ci: ClassInfo, pname: str):
+    """Name of the Enum class a constructor parameter / field is compared with inside the class, if any."""
+    for nd in ast.walk(ci.node):
+        if isinstance(nd, ast.Compare) and len(nd.comparators) == 1:
+            sides = [nd.left, nd.comparators[0]]
+            texts = [U(x) for x in sides]
+            if not any(t in (pname, f"self._{pname}", f"self.{pname}") for t in texts):
+                continue
+            for x in sides:
+                if isinstance(x, ast.Attribute) and isinstance(x.value, ast.Name):
+                    r = repo.resolve(ci.mod, x.value.id)
+                    if r is not None and isinstance(r[1], ast.ClassDef) and any(U(b).split(".")[-1] in ("Enum", "IntEnum") for b in r[1].bases):
+                        return x.value.id
+    return None
 
 
 def analyse_class(repo: Repo, ci: ClassInfo):
@@ -160,6 +202,14 @@ def _analyse_reader(repo, ci, fl, un, up, inner, meta):
             dec_ok = txt == f"ast.literal_eval({meta_name}[{key!r}])" and wt.startswith("str(")
         else:
             dec_ok = None
+        enum = _enum_of_field(repo, ci, pname) if dec_ok is None else None
+        if enum is not None:
+            # an Enum member: str(member) is 'Class.NAME', which ast.literal_eval refuses; the inverse pairs are name <-> Class[...] and value <-> Class(...)
+            by_name = wt.endswith(".name") and txt == f"{enum}[{meta_name}[{key!r}]]"
+            by_value = (wt.endswith(".value)") or wt.endswith(".value")) and txt in (f"{enum}(ast.literal_eval({meta_name}[{key!r}]))", f"{enum}(int({meta_name}[{key!r}]))")
+            res.append(("R4", "ok" if by_name or by_value else "bad", un.lineno, f"{ci.name}.{pname} codec", f"{ci.name}: `{pname}` (a member of {enum}) written as `{wt}` and read as `{txt[:70]}` are inverse of each other: {by_name or by_value}",
+                        f"every {ci.name} taken through __tensor_flatten__ / __tensor_unflatten__: ValueError (str(Enum) is not a literal)"))
+            continue
         if dec_ok is None:
             lit = txt.startswith("ast.literal_eval(") and wt.startswith("str(")
             res.append(("R4note", "note", un.lineno, f"{ci.name}.{pname} literal round trip", f"{ci.name}: `{pname}` written as `{wt}` read as `{txt[:60]}`: str(Enum) is not literal_eval-able" if lit else f"{ci.name}: `{pname}` codec not classified", ""))
